@@ -45,8 +45,20 @@ let cmd_w (t : string list) =
    its encoder makes on the output writer from the flushed chunks (coq/ExporterIO.v: run_wops / destroy_wops) and feeds them to the same
    writer models as the W group; TRACE then prints the events the whole stack must produce.
      XW new name|fd none|gzip|xz <id> <FilePreamble value>   XW qr <name hex> <n>   XW wb   XW rot <id> <export>   XW end *)
-type xst = { xnamed : bool; xcomp : string; xid0 : n; x0 : exporter; mutable xcur : exporter; mutable xops : xop list; mutable xids : n list; mutable xended : bool }
+type xst = { xnamed : bool; xcomp : string; xid0 : n; x0 : exporter; mutable xcur : exporter; mutable xops : xop list; mutable xids : n list; mutable xended : bool;
+             mutable fx : fx option;                 (* descriptor output under a fault plan (coq/ExporterFaults.v): every call goes through fstep *)
+             mutable fids : n list }                 (* ids of the outputs, the open one last *)
 let g_xw : xst option ref = ref None
+(* the fault plan named by FAILONCE k / SHORTONCE k n / FAILFROM k (the k-th write(2) of the scenario) *)
+let g_plan : os ref = ref { os_plan = []; os_rest = None }
+let rec nones k = if k <= 0 then [] else None :: nones (k - 1)
+let set_plan (t : string list) =
+  (match t with
+   | ["FAILONCE"; k] -> g_plan := { os_plan = nones (int_of_string k - 1) @ [Some N0]; os_rest = None }
+   | ["SHORTONCE"; k; n] -> g_plan := { os_plan = nones (int_of_string k - 1) @ [Some (n_of_dec n)]; os_rest = None }
+   | ["FAILFROM"; k] -> g_plan := { os_plan = nones (int_of_string k - 1); os_rest = Some N0 }
+   | _ -> ());
+  out "ok"
 let mk_gqr (name : n list) (k : n) : val0 option list =
   let base = n_of_dec "1600000000" in
   List.init 39 (fun i -> match i with
@@ -61,10 +73,31 @@ let cmd_xw (t : string list) =
     let (pre, _) = G_val.parse_v rest in
     let x = x_new pre in
     g_w := None;
-    g_xw := Some { xnamed = (kind = "name"); xcomp = comp; xid0 = n_of_dec id; x0 = x; xcur = x; xops = []; xids = []; xended = false };
+    let faulty = kind = "fd" && comp = "none" && ((!g_plan).os_plan <> [] || (!g_plan).os_rest <> None) in
+    g_xw := Some { xnamed = (kind = "name"); xcomp = comp; xid0 = n_of_dec id; x0 = x; xcur = x; xops = []; xids = []; xended = false;
+                   fx = (if faulty then Some (fx_new pre !g_plan) else None); fids = [n_of_dec id] };
     out "ok"
   | _ ->
   match !g_xw with None -> out "? no exporter" | Some s ->
+  match s.fx with
+  | Some f0 ->
+    (* under a fault plan: results per call, 'throw Out' for an exception *)
+    let fstp o = let ((f1, oc), r) = fstep f0 o in s.fx <- Some f1; s.xcur <- f1.f_x;
+                 (match oc with Done -> out ("r " ^ dec_of_n r) | Threw -> out "throw Out"); oc in
+    (match t with
+     | ["qr"; h; k] -> ignore (fstp (XQr (mk_gqr (bytes_of_hex h) (n_of_dec k), None)))
+     | ["wb"] -> ignore (fstp XWb)
+     | "rot" :: id :: e :: _ -> (match fstp (XRot (e <> "0")) with Done -> s.fids <- s.fids @ [n_of_dec id] | Threw -> ())
+     | ["counts"] -> out (Printf.sprintf "c %s %s" (dec_of_n (item_count s.xcur.x_blk)) (dec_of_n s.xcur.x_written))
+     | ["end"] -> s.xended <- true; out "ok"
+     | ["files"] ->
+       (* what every descriptor holds: the closed outputs oldest first, then the open one (after destruction when ended) *)
+       let f = (match s.fx with Some f -> f | None -> f0) in
+       let closed = List.rev_map fst f.f_closed in
+       let last = if s.xended then fdestroy f else f.f_cur in
+       List.iteri (fun i (o : dout) -> out (Printf.sprintf "file fd%s %s" (dec_of_n (List.nth s.fids i)) (hex_of_bytes o.d_stored))) (closed @ [last])
+     | _ -> out "? bad exporter command")
+  | None ->
   let step o = let (x', r) = xstep s.xcur o in s.xcur <- x'; s.xops <- s.xops @ [o]; r in
   match t with
   | ["qr"; h; k] -> let r = step (XQr (mk_gqr (bytes_of_hex h) (n_of_dec k), None)) in out ("r " ^ dec_of_n r)
@@ -102,4 +135,4 @@ let trace () =
       | ERename n -> out ("ev rename " ^ path_str s (Part n) ^ " " ^ path_str s (Final n))) evs;
     out "endtrace"
 
-let reset () = reset_w (); g_xw := None
+let reset () = reset_w (); g_xw := None; g_plan := { os_plan = []; os_rest = None }
